@@ -36,7 +36,7 @@ def check_peoi_guard(ctx, rq):
             n_raise += 1
             q = m.qual_of(r)
             iff = r._parent
-            key = f"{m.rel}|{q}|raise PrematureEndOfInput"
+            key = f"{m.rel}|{q}|raise PrematureEndOfInput under `{norm(iff.test) if isinstance(iff, ast.If) else '?'}`"
             if not isinstance(iff, ast.If):
                 ctx.unres("PEOI-GUARD", key, "not directly under an if")
                 continue
@@ -112,9 +112,17 @@ def check(ctx, src):
                 iff = p._parent
                 ok = isinstance(iff, ast.If) and iff.test is p and _raises_peoi(iff.body)
                 ctx.check(ok, "EOF-SENTINEL", key, "a negated sentinel read does not lead to PrematureEndOfInput", HR, c.lineno, detail="if not read(): raise PrematureEndOfInput")
-            elif isinstance(p, ast.Attribute):
-                # e.g. self.peekc().strip(): a widened test, judged by the converse rule below; the false arm still excludes EOF
-                ctx.ok("EOF-SENTINEL", key, f".{p.attr}() of the read inside a guard (judged by PEOI-GUARD)", nontrivial=False)
+            elif isinstance(p, (ast.Attribute, ast.Call)) and _guard_of(c) is not None:
+                # the read feeds a guard that raises PrematureEndOfInput: the guard must be true for '' (the end of input)
+                g = _guard_of(c)
+                v = _truth_at_eof(g.test, c)
+                if v is True:
+                    ctx.ok("EOF-SENTINEL", key, f"guard `{norm(g.test)}` is true at the end of input (its exactness is judged by PEOI-GUARD)")
+                elif v is False:
+                    ctx.bad("EOF-SENTINEL", key, f"the guard `{norm(g.test)}` is false for '' (the end of input), so a text cut here does not raise PrematureEndOfInput", HR, c.lineno,
+                            witness="(f #  — cut right after a `#` — raises a plain LexException")
+                else:
+                    ctx.unres("EOF-SENTINEL", key, f"guard `{norm(g.test)}` not understood")
             elif isinstance(p, ast.BoolOp):
                 # read_ident() or getc(): must be dominated by an EOF guard earlier in the function
                 idx = pyq.top_stmt_index(f, c)
@@ -161,6 +169,48 @@ def check(ctx, src):
         ctx.check(piece in t, "SRC-RESET", f"{RD}|Reader._set_source|{piece}", f"_set_source no longer executes `{piece}` for a new stream: look-ahead left by an aborted read leaks into the next source read with the same reader",
                   RD, ss.lineno, witness="REPL: after `(setv xs #` fails, the next truncated input reads as complete (or a valid one fails)", detail="reset per source")
     ctx.floor("EOF-OK", 8)
+
+
+def _guard_of(call):
+    """The `if` whose test contains this read and whose body raises PrematureEndOfInput."""
+    n = call
+    while n is not None and not isinstance(n, ast.stmt):
+        n = getattr(n, "_parent", None)
+    if isinstance(n, ast.If) and any(x is call for x in ast.walk(n.test)) and _raises_peoi(n.body):
+        return n
+    return None
+
+
+def _truth_at_eof(test, read):
+    """Value of `test` when the sentinel read returns '' — for the handful of predicate shapes the reader uses."""
+    def val(e):
+        if e is read:
+            return ""
+        if isinstance(e, ast.Call) and isinstance(e.func, ast.Attribute) and e.func.attr in ("strip", "lstrip", "rstrip", "lower", "upper") and val(e.func.value) == "":
+            return ""
+        if isinstance(e, ast.Call) and dotted(e.func) == "isnormalizedspace" and e.args and val(e.args[0]) == "":
+            return False  # the whitespace regex needs at least one character
+        if isinstance(e, ast.UnaryOp) and isinstance(e.op, ast.Not):
+            v = val(e.operand)
+            return None if v is None else (not v)
+        if isinstance(e, ast.Compare) and len(e.ops) == 1 and isinstance(e.comparators[0], ast.Constant):
+            v = val(e.left)
+            if v is None:
+                return None
+            if isinstance(e.ops[0], ast.Eq):
+                return v == e.comparators[0].value
+            if isinstance(e.ops[0], ast.NotEq):
+                return v != e.comparators[0].value
+            if isinstance(e.ops[0], ast.In):
+                return v in e.comparators[0].value
+        if isinstance(e, ast.BoolOp):
+            vs = [val(v) for v in e.values]
+            if any(v is None for v in vs):
+                return None
+            return all(vs) if isinstance(e.op, ast.And) else any(vs)
+        return None
+    v = val(test)
+    return None if v is None else bool(v)
 
 
 def _eof_checked_later(after):
